@@ -1,6 +1,7 @@
 ----------------------------- MODULE MC_Lifetimes -----------------------------
 EXTENDS Lifetimes, Json
-AllParamKinds == {"opq", "optopq", "slice", "opqlt", "st1", "st2", "st2b", "nst2"}
+AllParamKinds == {"opq", "optopq", "slice", "opqlt", "st1", "st2", "st2b", "nst2", "stv"}
+EmitGetters == PrintT(<<"GETTERS", ToJson([k \in DOMAIN StructFields |-> [l \in {"p", "q"} |-> FieldsFor(k, l)]])>>)
 AllRetKinds == {"ropq", "roptopq", "rslice", "rbox", "rst1", "rst2", "ropqlt"}
 SmallParamKinds == {"opq", "slice", "opqlt", "st2b"}
 SmallRetKinds == {"ropq", "rbox", "rst2"}
